@@ -57,8 +57,22 @@ def _is_blankline_search(t):
     return False
 
 
+def _earliest_problem(term):
+    """When several blank-line searches are combined, the head must end at the earliest hit."""
+    calls = T.calls_in(term)
+    searches = {(c[1], c[3]) for c in calls if c[1].endswith(("::position", "::find", "::rposition", "::rfind"))}
+    mx = [T.short(c[1]) for c in calls if c[1].endswith(("::max", "::max_by", "::max_by_key", "::last", "::rposition", "::rfind", "::next_back"))]
+    mn = [c for c in calls if c[1].endswith(("::min", "::min_by", "::min_by_key"))]
+    if mx:
+        return "the end of the head is chosen with %s: with two blank-line forms present the later one wins and body bytes are decoded as head" % ",".join(sorted(set(mx)))
+    if len(searches) >= 2 and not mn:
+        return "two blank-line searches are combined without taking the earlier position"
+    return None
+
+
 def rule_R1(ctx):
     P = ctx.program
+    seen_helpers = set()
     for fn in ("parse_request", "parse_response"):
         b = P.method1(HP, fn)
         S = T.Slicer(b, P)
@@ -82,6 +96,15 @@ def rule_R1(ctx):
                         rets = TB.return_sites(hb, P)
                         ok = bool(rets) and all(_prefix_slice_of_param(term) or T.strip(term)[0] == "param" and False for (_, _, term, _c) in rets) and \
                             any(_is_blankline_search(term) for (_, _, term, _c) in rets)
+                        if ok and hb.path not in seen_helpers:
+                            seen_helpers.add(hb.path)
+                            probs = [p for p in (_earliest_problem(term) for (_, _, term, _c) in rets) if p]
+                            ctx.check(not probs, "R1", T.short(hb.path) + ":earliest-blank-line", "the head ends at the first blank line (CRLFCRLF or LFLF, whichever comes first)",
+                                      "; ".join(probs), ctx.loc(hb))
+            if ok and not whole:
+                pr = _earliest_problem(arg)
+                if pr and not any(T.strip(arg)[0] == "call" and T.strip(arg)[1] in seen_helpers for _ in (0,)):
+                    ctx.fail("R1", fn + ":earliest-blank-line", pr, ctx.loc(b, blk))
             ctx.check(ok, "R1", fn + ":head-only",
                       "only the bytes up to the blank line are decoded and split",
                       "%s validates and splits the *whole* input (head and body) as UTF-8 text: a binary body makes a complete, valid head unparsable "
@@ -223,6 +246,63 @@ def rule_R5(ctx):
     ctx.check(en, "R5", "language:index-source", "index = position in the comma separated list", "tie index is not the list position", ctx.loc(b))
 
 
+def rule_R5b(ctx):
+    """the compared q-value is the parsed number itself (no rounding / truncation before the comparison)"""
+    P = ctx.program
+    b = P.body("huginn_net_http::http_languages::get_highest_quality_language")
+    found = False
+    for cb in P.closures_of(b.path):
+        S = T.Slicer(cb, P)
+        for i, j, s in cb.iter_stmts():
+            if s["k"] == "assign" and s["r"]["k"] == "agg" and s["r"]["ak"] == "tuple" and len(s["r"]["ops"]) == 3:
+                t = S.rvalue(s["r"], i, j)
+                q = T.expand_upvars(P, cb, t[4][0])
+                ty = cb.locals[s["p"]["l"]]["ty"] if not s["p"]["pr"] else ""
+                if not (ty.startswith("(") and ty.count(",") == 2 and "usize" in ty.split(",")[1]):
+                    continue
+                found = True
+                if not ty.startswith("(f32,") and not ty.startswith("(f64,"):
+                    ctx.fail("R5", "language:q-precision", "q-values are compared as `%s`, not as the parsed fraction: entries that differ only in a later decimal tie and the "
+                             "earlier, lower-quality language wins" % ty.split(",")[0].lstrip("("), ctx.loc(cb, i))
+                    continue
+                lossy = [x for x in T.walk(q) if x[0] == "cast" and x[1] in ("FloatToInt", "IntToFloat", "IntToInt")]
+                arith = [x for x in T.walk(q) if x[0] == "binop" and x[1] in ("Mul", "Div", "Add", "Sub", "Rem")]
+                rnd = [c for c in T.calls_in(q) if c[1].endswith(("::round", "::floor", "::ceil", "::trunc"))]
+                ctx.check(not lossy and not arith and not rnd, "R5", "language:q-precision", "q-values are compared as parsed (f32), default 1.0",
+                          "the q-value is %s before the comparison: entries that differ only in a later decimal (RFC 7231 allows three) tie, and the earlier, "
+                          "lower-quality language wins" % ("converted (%s)" % lossy[0][1] if lossy else "rounded" if rnd else "rescaled"), ctx.loc(cb, i))
+    if not found:
+        ctx.cannot("R5", "language:q-precision", "the (quality, index, name) tuple of the language selection was not found", ctx.loc(b))
+
+
+def rule_R7(ctx):
+    """a common header that is present under any capitalisation is not listed as absent (header names are case-insensitive)"""
+    P = ctx.program
+    b = P.body("huginn_net_http::http1_process::build_absent_headers_from_new_parser")
+    S = T.Slicer(b, P)
+    n = 0
+    for blk, t in Q.calls(b, "::contains"):
+        a = Q.call_args(b, S, blk, t)
+        hay, needle = a[0], a[1]
+        fold = ("to_lowercase", "to_ascii_lowercase", "to_uppercase", "to_ascii_uppercase")
+        needle_f = any(T.has_call(needle, f) for f in fold)
+        hay_f = any(T.has_call(hay, f) for f in fold)
+        for x in T.walk(hay):
+            if x[0] == "agg" and x[1] == "closure" and x[2] in P.bodies:
+                if any(callee_of(t2).endswith(fold) for _, t2 in P.bodies[x[2]].calls()):
+                    hay_f = True
+        n += 1
+        ctx.check(needle_f and hay_f, "R7", "absent-headers:case-fold", "present names and common-list names are compared case-folded",
+                  "the absent-header list compares header names byte for byte (present side folded=%s, list side folded=%s): a common header sent as `host:` or `ACCEPT:` "
+                  "is on the wire, appears in the header order, and is nevertheless listed as absent" % (hay_f, needle_f), ctx.loc(b, blk))
+    for cb in P.closures_of(b.path):
+        for blk, t in cb.calls():
+            if callee_of(t).endswith("eq_ignore_ascii_case"):
+                n += 1
+                ctx.ok("R7", "absent-headers:ignore-case", "case-insensitive comparison", ctx.loc(cb, blk))
+    ctx.floor("R7", "name comparisons in build_absent_headers_from_new_parser", n, 1)
+
+
 def rule_R6(ctx):
     P = ctx.program
     b = P.method1(HP, "parse_request")
@@ -279,4 +359,6 @@ def run(ctx):
     rule_R2_R3(ctx)
     rule_R4(ctx)
     rule_R5(ctx)
+    rule_R5b(ctx)
     rule_R6(ctx)
+    rule_R7(ctx)
